@@ -193,7 +193,13 @@ pub fn run(out: &mut Out, rng: &mut Rng, thorough: bool) {
         // ---- Sphere::extend / contains
         {
             let c = vec(rng, structured, s);
-            let r = if structured { 0.25 * (1 + rng.below(6)) as f64 } else { s * (0.05 + rng.f64()) };
+            let r = if rep % 9 == 4 {
+                0.0 // a point sphere: extending it by a point gives the sphere with the two as diameter
+            } else if structured {
+                0.25 * (1 + rng.below(6)) as f64
+            } else {
+                s * (0.05 + rng.f64())
+            };
             let x = match rep % 4 {
                 0 => c + rv(rng, 1.0).normalize() * r * (1.5 + rng.f64()),          // outside
                 1 => c + rv(rng, 1.0) * r * 0.5,                                    // inside
